@@ -106,6 +106,64 @@ def run_api_case(item):
     return record.abstract(case, obs, result, tables, tid)
 
 
+# (d) edit-distance neighbourhoods: every string over a small alphabet up to a length bound paired with every string
+# one edit away, through filter_pair of the four filters under EDIT_DISTANCE (bags of q-grams: long runs of one
+# character give q-grams that occur three and more times).  Only a DROPPED pair can violate C04, so only the
+# dropped pairs are handed to TLC (pair-level record for spec/TraceAPI.tla: MustED => not dropped).
+ED_CONFIGS = [(2, 1, 1), (2, 1, 2), (3, 1, 1), (2, 0, 1), (3, 0, 1), (1, 0, 1)]          # (q, padding, threshold)
+FNAMES = ['SIZE', 'PREFIX', 'POSITION', 'SUFFIX']
+
+
+def neighbours(st, alphabet):
+    out = set()
+    for i in range(len(st) + 1):
+        for ch in alphabet:
+            out.add(st[:i] + ch + st[i:])
+    for i in range(len(st)):
+        out.add(st[:i] + st[i + 1:])
+        for ch in alphabet:
+            if ch != st[i]:
+                out.add(st[:i] + ch + st[i + 1:])
+    out.discard(st)
+    return sorted(out)
+
+
+def run_ed_batch(item):
+    import itertools
+    (q, pad, tau), alphabet, length = item
+    ssj = lib.load()
+    import py_stringmatching as sm
+    tok = sm.QgramTokenizer(qval=q, padding=bool(pad), return_set=False)
+    filters = [cls(tok, 'EDIT_DISTANCE', tau) for cls in (ssj.SizeFilter, ssj.PrefixFilter,
+                                                        ssj.PositionFilter, ssj.SuffixFilter)]
+    pairs, dropped = 0, []
+    for tup in itertools.product(alphabet, repeat=length):
+        st = ''.join(tup)
+        for nb in neighbours(st, alphabet):
+            pairs += 1
+            for fi, f in enumerate(filters):
+                try:
+                    if f.filter_pair(st, nb):
+                        dropped.append([st, nb, fi])
+                except Exception:
+                    dropped.append([st, nb, fi])          # re-executed and judged below (valid-call-raised)
+    return {'pairs': pairs, 'dropped': dropped, 'cfg': [q, pad, tau]}
+
+
+def ed_pair_case(q, pad, tau, st, nb, fi):
+    return {'kind': 'ftab', 'api': FNAMES[fi] + '.filter_pair', 'filt': FNAMES[fi], 'meas': 'EDIT_DISTANCE',
+            'op': '<=', 't': [tau, 1], 'ae': 1, 'am': 0, 'sc': 0, 'lout': None, 'rout': None, 'n_jobs': 1,
+            'tok': {'kind': 'qg', 'q': q, 'pad': pad, 'rs': 0},
+            'L': {'cols': ['id', 's'], 'rows': [[1, st]], 'index': None, 'strcols': ['s']},
+            'R': {'cols': ['id', 's'], 'rows': [[11, nb]], 'index': None, 'strcols': ['s']}}
+
+
+def run_ed_pair_case(item):
+    tid, case = item
+    obs, result, events, tables = record.execute_filter_pair(case)
+    return record.abstract(case, obs, result, tables, tid)
+
+
 def grid(tier):
     ths = THRESHOLDS if tier == 'thorough' else THRESHOLDS[:12]
     out = []
@@ -174,19 +232,46 @@ def run(tier, seed):
     for tid, v in averd.items():
         for f in v['fails']:
             fails.append({'prop': f[0], 'clause': f[1], 'detail': f[2:], 'case': by_tid[tid], 'engine': 'E2'})
+    # (d) edit-distance neighbourhoods
+    maxlen = 10 if tier == 'quick' else 13
+    ed_items = [(cfg, 'ab', n) for cfg in ED_CONFIGS for n in range(1, maxlen + 1)]
+    ed_items += [(cfg, 'abc', n) for cfg in ED_CONFIGS for n in range(1, (6 if tier == 'quick' else 8) + 1)]
+    ed_items.sort(key=lambda it: -len(it[1]) ** it[2])
+    eouts = runner.pmap(run_ed_batch, ed_items, chunk=1)
+    ed_pairs = sum(o['pairs'] for o in eouts)
+    ed_cases = []
+    for o in eouts:
+        q, pad, tau = o['cfg']
+        for st, nb, fi in o['dropped']:
+            ed_cases.append(ed_pair_case(q, pad, tau, st, nb, fi))
+    runner.log('E2: %d edit-distance neighbour pairs x 4 filters; TLC judges the %d dropped ones' % (ed_pairs, len(ed_cases)))
+    if len(ed_cases) > 400000:
+        raise runner.MachineryError('E2: %d dropped neighbour pairs - more than TLC is asked to judge' % len(ed_cases))
+    eitems = [(i + 1, c) for i, c in enumerate(ed_cases)]
+    erecs = runner.pmap(run_ed_pair_case, eitems)
+    everd, estats = runner.validate(erecs, 'TraceAPI', 'e2d', batch=4000)
+    e_by_tid = dict(eitems)
+    for tid, v in everd.items():
+        for f in v['fails']:
+            fails.append({'prop': f[0], 'clause': f[1], 'detail': f[2:], 'case': e_by_tid[tid], 'engine': 'E2'})
     if escalate:
         drift.append('E2 %d table-level find_candidates outcomes differ from the envelope; public API verdicts decide' % len(escalate))
     samples = [{'word': ''.join('LRB'[d] for d in digits(e[1], e[0])), 'meas': r['meas'], 't': r['t'],
                 'filter_pair_dropped[size,prefix,position,suffix]': e[2:6], 'find_candidates_kept[size,prefix,position]': e[6:9]}
                for r in recs[:2] for e in r['entries'][-3:-1]]
-    return {'engine': 'E2', 'cases': n_entries + len(items), 'traces': n_entries + len(arecs),
-            'states': stats['states'] + astats['states'], 'transitions': stats['transitions'] + astats['transitions'],
+    return {'engine': 'E2', 'cases': n_entries + len(items) + ed_pairs * 4, 'traces': n_entries + len(arecs) + len(erecs),
+            'states': stats['states'] + astats['states'] + estats['states'],
+            'transitions': stats['transitions'] + astats['transitions'] + estats['transitions'],
             'fails': fails, 'drift': drift, 'samples': samples, 'exhaustive': True,
             'spec_runs': ['TraceWords: %d word outcomes in %d TLC runs' % (n_entries, stats['tlc_runs']),
-                          'TraceAPI: %d calls in %d TLC runs' % (len(arecs), astats['tlc_runs'])],
+                          'TraceAPI: %d calls in %d TLC runs' % (len(arecs), astats['tlc_runs']),
+                          'TraceAPI (pair level): %d dropped edit-distance neighbour pairs of %d x 4 filter_pair calls' % (
+                              len(erecs), ed_pairs)],
             'rule': 'all words over {L,R,B} up to length %d x %d (measure, threshold) pairs on filter_pair and '
                     'find_candidates; all words up to length %d on the public joins/filter_tables; '
-                    'internal index API available: %s' % (u, len(g), u_api, internal)}
+                    'internal index API available: %s; every string over {a,b} up to length %d (and {a,b,c} up to %d) with '
+                    'every string one edit away x %d (q, padding, threshold) on filter_pair of the four filters under '
+                    'EDIT_DISTANCE' % (u, len(g), u_api, internal, maxlen, 6 if tier == 'quick' else 8, len(ED_CONFIGS))}
 
 
 def replay(case):
@@ -204,6 +289,6 @@ def replay(case):
         fails = [{'prop': f[0], 'clause': f[1], 'detail': f[2:]} for p in out[1]['collected']['FAIL']
                  for f in p['fails']]
         return fails, full
-    rec = run_api_case((1, case))
+    rec = run_ed_pair_case((1, case)) if str(case.get('api', '')).endswith('.filter_pair') else run_api_case((1, case))
     verdicts, _ = runner.validate([rec], 'TraceAPI', 'replay-e2')
     return [{'prop': f[0], 'clause': f[1], 'detail': f[2:]} for f in verdicts[1]['fails']], rec
